@@ -46,20 +46,26 @@ LEVEL_NOTE = ('Trusts numpy arithmetic. Widths are differences of the '
               'num_rings = 1 is rejected by DASSH itself, the zero-edge '
               '(corner-only) mesh is reached through unrodded regions.')
 DESIGN_REF = 'DESIGN.md section 3, C10'
-RULE = ('grid: for every ordered pair (A, B) of mesh classes {corner-only, '
+RULE = ('grid (direct calls, ring-pair space covered exhaustively in both '
+        'tiers): for every ordered pair (A, B) of mesh classes {corner-only, '
         '2..15 rings} a 7-position core with A at the centre and a random '
-        'A/B/empty pattern around it (random pin pitch, 1-3 ducts, optional '
-        'unrodded axial regions), all (assembly, region) pairs mapped '
-        'directly; core/split: random 7/19/37-position cores with 2-5 types '
-        '(split: alternating neighbours so hex sides 5 and 0 differ) built '
-        'and marched with the mapping functions hooked; near: two types '
-        'whose pitches differ by 1e-7..1e-5 relative. A case is non-trivial '
-        'when at least one checked pair has different duct and gap meshes; '
-        'distinct by (kind, ring counts, ducts, pattern)')
+        'A/B/empty pattern around it (random pin pitch, wall, pin-to-wall '
+        'gap, 1-3 ducts, optional unrodded axial regions), every distinct '
+        '(region mesh, gap mesh) pair of the build mapped directly; '
+        'core/split (hooked): random 7..61-position cores with 2-5 types, '
+        'empty positions, low-fidelity and multi-region assemblies (split: '
+        'alternating neighbours so that hex sides 5 and 0 get their mesh '
+        'from different assemblies, the finer one with the wider corner), '
+        'built and marched 25-300 steps incl. the first region change; '
+        'near: two types whose pitches differ by 1e-7..1e-5 relative; '
+        'witness: hand-written minimal pair for the split corner. A case is '
+        'non-trivial when at least one checked pair has different duct and '
+        'gap meshes; distinct by (kind, ring counts, ducts, pattern)')
 DECIDING = ['M1_nonneg', 'M2_const_gap2duct', 'M2_const_duct2gap',
             'M3_detailed_balance', 'M3_detailed_balance_split_corner',
             'M4_integral_gap2duct', 'M4_integral_duct2gap',
             'M5_identity_on_equal_meshes', 'H1_every_region_map_monitored',
+            'H3_map_built_from_own_meshes',
             'U1_apply_is_matvec', 'U3_apply_integral',
             'cov_split_corner_asym_effective', 'cov_pair_refined',
             'cov_pair_shifted', 'cov_pair_corner_only_region']
@@ -82,7 +88,7 @@ MESH_CLASSES = list(range(1, 16))   # 1 = corner-only (unrodded) assembly
 
 def cases(tier, seed):
     out = []
-    n_var = 1 if tier == 'quick' else 6
+    n_var = 2 if tier == 'quick' else 24
     k = 0
     for v in range(n_var):
         for a in MESH_CLASSES:
@@ -91,19 +97,20 @@ def cases(tier, seed):
                             'kind': 'grid', 'a': a, 'b': b, 'var': v,
                             'seed': [seed, 1, k]})
                 k += 1
-    n_core = 36 if tier == 'quick' else 300
+    steps = 25 if tier == 'quick' else 50
+    n_core = 80 if tier == 'quick' else 2400
     for i in range(n_core):
         out.append({'name': 'core-%d' % i, 'kind': 'core', 'big': False,
-                    'seed': [seed, 2, i]})
-    n_big = 2 if tier == 'quick' else 24
+                    'steps': steps, 'seed': [seed, 2, i]})
+    n_big = 4 if tier == 'quick' else 160
     for i in range(n_big):
         out.append({'name': 'bigcore-%d' % i, 'kind': 'core', 'big': True,
-                    'seed': [seed, 5, i]})
-    n_split = 24 if tier == 'quick' else 200
+                    'steps': steps, 'seed': [seed, 5, i]})
+    n_split = 60 if tier == 'quick' else 1600
     for i in range(n_split):
         out.append({'name': 'split-%d' % i, 'kind': 'split',
-                    'seed': [seed, 3, i]})
-    n_near = 4 if tier == 'quick' else 24
+                    'steps': steps, 'seed': [seed, 3, i]})
+    n_near = 6 if tier == 'quick' else 60
     for i in range(n_near):
         out.append({'name': 'near-%d' % i, 'kind': 'near',
                     'seed': [seed, 4, i]})
@@ -301,6 +308,7 @@ def check_maps(res, xb_reg, xb_core, M, N, rng, mapfun, key0, origin):
     # implies: tells whether a failure is confined to the split corner row
     Nfix = Nl.copy()
     Nfix[-1, :] = A[:, -1] / w_g[-1]
+    c['fix_row'] = Nfix[-1].copy()
     for t in range(3):
         ug = rng.uniform(300.0, 1200.0, c['fine_dim'])
         ug[n_g:] = 9.9e5
@@ -336,7 +344,10 @@ def check_maps(res, xb_reg, xb_core, M, N, rng, mapfun, key0, origin):
     if cls == 'equal':
         dev = max(float(np.max(np.abs(Ml - np.eye(n_d)))),
                   float(np.max(np.abs(Nl - np.eye(n_d)))))
-        res.close('M5_identity_on_equal_meshes', dev, 1.0, 1e-12,
+        # boundaries equal to round-off: slivers of that size are allowed
+        sliver = float(np.max(np.abs(c['xr'][1:-1] - c['xg']))) / wmin
+        res.close('M5_identity_on_equal_meshes', dev, 1.0,
+                  1e-12 + 2.0 * sliver,
                   'meshes coincide but the transfer is not the identity',
                   dict(key, mech='identity'))
 
@@ -439,7 +450,7 @@ def build_grid(case, rng):
 
 def build_core(case, rng):
     big = case.get('big')
-    n_ring = wl.choose(rng, [3, 4]) if big else wl.choose(rng, [2, 2, 2, 3])
+    n_ring = wl.choose(rng, [3, 4, 5]) if big else wl.choose(rng, [2, 2, 2, 3])
     n_types = int(rng.integers(2, 6))
     P = _base(rng)
     classes = []
@@ -654,7 +665,11 @@ def run_hooked(case, res, P, feats, rng, n_steps):
         if c.get('ident_unequal'):
             k = {'mech': 'identity_for_unequal_meshes', 'dir': direction,
                  'origin': 'sweep'}
-        elif direction == 'duct2gap' and asym:
+        elif direction == 'duct2gap' and asym and abs(
+                r - w_g[-1] * (live_out[-1] - float(c['fix_row'] @ vec))
+                ) <= TOL * scale:
+            # closes once the split-corner row is the one detailed balance
+            # with the gap->duct matrix implies: confined to that row
             k = {'where': 'split_top_corner_gap_cell', 'halves': 'unequal',
                  'map': 'duct2gap', 'origin': 'sweep',
                  'wider_than_duct_corner':
@@ -664,10 +679,20 @@ def run_hooked(case, res, P, feats, rng, n_steps):
                   'sweep is not preserved (%s)' % direction, k,
                   {'halves': [h0, h5], 'spread': spread})
         res.tag('applied:' + direction)
+        if state.get('in_update_region'):
+            res.tag('applied_in_update_region')
 
     with drive.scratch() as d, Hooks() as hk:
         hk.wrap(mf, '_map_asm2gap', post=post_map, label='map')
         hk.wrap(mf, 'map_across_gap', post=post_apply)
+
+        def _enter(args, kwargs):
+            state['in_update_region'] = True
+
+        def _leave(args, kwargs, out, tok):
+            state['in_update_region'] = False
+        hk.wrap(dassh.assembly.Assembly, 'update_region', pre=_enter,
+                post=_leave)
         inp, r = drive.build(P, d)
         state['building'] = False
         n_regs = sum(len(a.region) for a in r.assemblies)
@@ -681,9 +706,42 @@ def run_hooked(case, res, P, feats, rng, n_steps):
                   % (hk.n['map'], n_regs),
                   {'mech': 'hook_coverage'})
         res.stat('regions_per_build', n_regs)
+        # the matrices each region carries were built from its own duct
+        # mesh and from the gap mesh around its own assembly, and sit in
+        # the slot DASSH reads them from
+        wired = True
+        for ai, a in enumerate(r.assemblies):
+            xg_own = r.core._asm_sc_xbnds[ai]
+            xg_own = xg_own[xg_own > 0]
+            for reg in a.region:
+                ig = reg_.by_id.get(id(reg._map['gap2duct']))
+                idg = reg_.by_id.get(id(reg._map['duct2gap']))
+                ok = (ig is not None and idg is not None
+                      and ig[0] == 'gap2duct' and idg[0] == 'duct2gap'
+                      and ig[1] is idg[1]
+                      and np.array_equal(ig[1]['xr'], reg.calculate_xbnds())
+                      and np.array_equal(ig[1]['xg'], xg_own)
+                      and ig[1]['n_g'] == int(r.core._n_sc_per_asm[ai]))
+                wired = wired and ok
+                res.check('H3_map_built_from_own_meshes', bool(ok),
+                          'a region carries a map that was not built from '
+                          'its own duct mesh and the gap mesh around its own '
+                          'assembly (or the two directions are swapped)',
+                          {'mech': 'wiring', 'region': _region_kind(reg)})
+        if not wired:
+            return state['different']
         # heat the assemblies so the mapped vectors are not uniform
         if r.core.model is not None and n_steps > 0:
-            n = min(n_steps, len(r.z) - 1)
+            n = n_steps
+            # go through the first change of axial region (update_region
+            # maps the gap state onto the new region's duct mesh)
+            zb = [b for a in r.assemblies for b in a.region_bnd[1:]]
+            if zb:
+                i_rc = int(np.searchsorted(r.z, min(zb))) + 3
+                if i_rc <= case.get('max_steps', 300):
+                    n = max(n, i_rc)
+                    res.tag('marched_through_region_change')
+            n = min(n, len(r.z) - 1)
             env.log_records()
             try:
                 with drive.quiet():
